@@ -40,19 +40,68 @@ fn c05_define_total() {
     let outer: usize = kani::any();
     kani::assume(outer <= usize::MAX / 2);
     unsafe { OUTER_SYMBOLS = outer; }
+    kani::cover!(outer == 65534);
     kani::cover!(outer == 65535);
-    kani::cover!(outer == 65536);
-    let mut ctx = ManuallyDrop::new(Context { scope: Scope::Local, max_size: 0, symbols: vec![Vec::with_capacity(1)] });
+    // the innermost scope already holds one name (`b`); the ghost count covers the enclosing scopes
+    let mut inner: Vec<String> = Vec::with_capacity(2);
+    inner.push(name_of(false));
+    let mut ctx = ManuallyDrop::new(Context { scope: Scope::Local, max_size: 7, symbols: vec![inner] });
     let r = ManuallyDrop::new(ctx.define("a"));
     match &*r {
         Ok(s) => {
-            assert!(outer <= u16::MAX as usize && s.index as usize == outer);
-            assert!(ctx.symbols.len() == 1 && ctx.symbols[0].len() == 1 && ctx.max_size == 1);
+            // slot == number of names declared before it in the context; the name is appended to the innermost scope
+            assert!(outer + 1 <= u16::MAX as usize && s.index as usize == outer + 1 && s.scope == Scope::Local);
+            assert!(ctx.symbols.len() == 1 && ctx.symbols[0].len() == 2 && ctx.max_size == 8);
+            assert!(ctx.symbols[0][0].as_bytes() == b"b" && ctx.symbols[0][1].as_bytes() == b"a");
         }
         Err(e) => {
-            assert!(outer > u16::MAX as usize);
+            assert!(outer + 1 > u16::MAX as usize);
             assert!(matches!(e, Error::SyntaxError(_)));
-            assert!(ctx.symbols.len() == 1 && ctx.symbols[0].len() == 0 && ctx.max_size == 0);
+            assert!(ctx.symbols.len() == 1 && ctx.symbols[0].len() == 1 && ctx.max_size == 7);
         }
     }
 }
+
+fn name_of(is_a: bool) -> String {
+    let mut s = String::with_capacity(1);
+    s.push(if is_a { 'a' } else { 'b' });
+    s
+}
+
+/// O09.res  Context::resolve (real code: reverse scope walk, rposition, slot arithmetic) on every context of two
+/// open scopes holding 0..=2 names each over {a, b}: the answer is the LAST declaration of the name in the INNERMOST
+/// scope that has one, its slot is the number of names declared before it in the context, and a name that no open
+/// scope declares is not found.
+#[kani::proof]
+#[kani::unwind(6)]
+fn c09_resolve_two_scopes() {
+    let n0: usize = kani::any();
+    let n1: usize = kani::any();
+    kani::assume(n0 <= 2 && n1 <= 2);
+    let k: [bool; 4] = kani::any();
+    let mut s0: Vec<String> = Vec::with_capacity(2);
+    let mut s1: Vec<String> = Vec::with_capacity(2);
+    if n0 > 0 { s0.push(name_of(k[0])); }
+    if n0 > 1 { s0.push(name_of(k[1])); }
+    if n1 > 0 { s1.push(name_of(k[2])); }
+    if n1 > 1 { s1.push(name_of(k[3])); }
+    let mut scopes = Vec::with_capacity(2);
+    scopes.push(s0);
+    scopes.push(s1);
+    let ctx = ManuallyDrop::new(Context { scope: Scope::Local, max_size: 0, symbols: scopes });
+    let r = ctx.resolve("a");
+    // specification: flat list of the declarations in order; the answer is the last `a` of the inner scope if it has
+    // one, else the last `a` of the outer scope
+    let inner = if n1 > 1 && k[3] { Some(n0 + 1) } else if n1 > 0 && k[2] { Some(n0) } else { None };
+    let outer = if n0 > 1 && k[1] { Some(1) } else if n0 > 0 && k[0] { Some(0) } else { None };
+    let want = if inner.is_some() { inner } else { outer };
+    match (r, want) {
+        (Some(s), Some(w)) => assert!(s.index as usize == w && s.scope == Scope::Local),
+        (None, None) => {}
+        _ => assert!(false),
+    }
+}
+
+// Sequences of define calls (block / function scenarios on the real SymbolTable) were tried as harnesses
+// c09_block_scope_restores and c09_function_contexts and do NOT finish in CBMC (2+2 declarations: out of memory;
+// three declarations in nested contexts: > 600 s). The composition is done by the Verus lemmas of unit c09_names.
